@@ -16,6 +16,6 @@ C19_OK(e) ==
          s2 == IdealDC(s1.par, s1.ch, e.root) IN
      e.after.par = s2.par /\ e.after.ch = s2.ch
 TInit == l = 1
-TNext == l <= Len(Trace) /\ PrintT(<<"J", l, Trace[l].id, IF C19_OK(Trace[l]) THEN {} ELSE {"C19"}>>) /\ l' = l + 1
+TNext == l <= Len(Trace) /\ PrintT(ToString(<<"J", l, Trace[l].id, IF C19_OK(Trace[l]) THEN {} ELSE {"C19"}>>)) /\ l' = l + 1
 Accepted == TLCGet("stats").diameter - 1 = Len(Trace)
 =============================================================================
